@@ -862,4 +862,5 @@ SELFTEST = [
      "new": "    try:\n        with gzip.GzipFile(in_file, \"rb\") as fh:\n            results = pickle.load(fh)\n    except EOFError as e:\n        raise RuntimeError(\"trace file is truncated: {}\".format(in_file)) from e\n\n    print(\"\\nExtracting unique topologies from sample trace.\")\n"},
     {"name": "benign-normalise-after-load", "kind": "benign", "file": _PT, "old": _CONS_OLD,
      "new": "    with gzip.GzipFile(in_file, \"rb\") as fh:\n        results = pickle.load(fh)\n    results = dict(sorted(results.items()))\n\n    data = results[0][\"data\"]\n\n    trees = []\n"},
+    {"name": "P0-reader-collects-records-until-eof", "kind": "break", "rule": "P0", "file": "phyclone/process_trace/process_trace.py", "old": "    with gzip.GzipFile(in_file, \"rb\") as fh:\n        results = pickle.load(fh)\n\n    print(\"\\nExtracting unique topologies from sample trace.\")\n", "new": "    results = {}\n    with gzip.GzipFile(in_file, \"rb\") as fh:\n        while True:\n            try:\n                results.update(pickle.load(fh))\n            except EOFError:\n                break\n\n    print(\"\\nExtracting unique topologies from sample trace.\")\n"},
 ]
